@@ -208,3 +208,23 @@ func VerifC02JsonBlock() {
 	}
 	verifReach("end")
 }
+
+// C02.jsonBlockFetchFail — as C02.grpcBlockFetchFail for handleGetBlock.
+func VerifC02JsonBlockFetchFail() {
+	sc := verifC02BlockScene(false)
+	if len(sc.txs) == 0 {
+		return
+	}
+	verifKnownFinding("C02-getblock-tx-fetch-failure-nil-deref", true)
+	sc.a.failing = &sc.txs[verifChoice("failingTx", len(sc.txs))].c
+	verifC02Req.slot = sc.b.slot
+	verifC02Req.encoding = verifC02Encodings[0]
+	verifC02Req.rewards = false
+	verifC02Replies = nil
+	raw := json.RawMessage("[opaque]")
+	req := &jsonrpc2.Request{Method: "getBlock", ID: jsonrpc2.ID{Num: 1}, Params: &raw}
+	conn := &requestContext{ctx: &fasthttp.RequestCtx{}}
+	errResp, err := sc.multi.handleGetBlock(context.Background(), conn, req)
+	verifAssert(errResp != nil && err != nil && len(verifC02Replies) == 0, "C02.jsonBlockFetchFail: a block whose transaction could not be read is answered without an error")
+	verifReach("end")
+}
